@@ -135,3 +135,40 @@ mod ladder {
     //@ h=body_ladder_64 props=C07,C02 cfgs=K6 tier=q t=900 submod=ladder | funcs: dist_body::distance_64 with run-time dispatch | bound: as body_ladder_32 | stubs: as body_ladder_32
     ladder!(body_ladder_64, distance_64, 64, t_avx2_64, t_sse41_64, t_sse2_64, t_p64_64);
 }
+
+// K6s: static backend selection (feature `simd` without `detect-features`).  With the default
+// x86_64 target features (sse2 only) the entry points must be the SSE2 backend.
+#[cfg(all(feature = "opt-simd-body-comparison", not(feature = "detect-features"),
+          target_arch = "x86_64", target_feature = "sse2", not(target_feature = "sse4.1")))]
+mod static_sel {
+    #![allow(unsafe_code)]
+    #![allow(static_mut_refs)]
+    use super::super::*;
+    static mut CALLED: u8 = 0;
+    unsafe fn t32(a: &[u8; 32], b: &[u8; 32]) -> u32 {
+        CALLED = 1;
+        let _ = (a, b);
+        4242
+    }
+    unsafe fn t64(a: &[u8; 64], b: &[u8; 64]) -> u32 {
+        CALLED = 2;
+        let _ = (a, b);
+        4343
+    }
+    //@ h=body_static props=C07 cfgs=K6s tier=q t=600 submod=static_sel | funcs: dist_body::distance_32/64 with compile-time backend selection (feature simd without detect-features, default x86_64 target features) | bound: all argument pairs: the entry points call the SSE2 backend (whose correctness is k_sse2_*) | stubs: x86_sse2::distance_32/64 -> tagging stubs
+    #[kani::proof]
+    #[kani::unwind(4)]
+    #[kani::stub(super::super::x86_sse2::distance_32, t32)]
+    #[kani::stub(super::super::x86_sse2::distance_64, t64)]
+    fn body_static() {
+        let a: [u8; 32] = kani::any();
+        let b: [u8; 32] = kani::any();
+        unsafe {
+            CALLED = 0;
+        }
+        assert!(distance_32(&a, &b) == 4242 && unsafe { CALLED } == 1);
+        let c: [u8; 64] = kani::any();
+        let d: [u8; 64] = kani::any();
+        assert!(distance_64(&c, &d) == 4343 && unsafe { CALLED } == 2);
+    }
+}
